@@ -2,7 +2,7 @@
 import vf
 
 NAME, MODULE, TRACE_MODULE, HARNESS, FIELDS = "tree", "TreeImpl", "TreeTrace", "replay_tree", ("a", "b")
-TRACE_CONSTS = dict(MaxKey=100000, Vals={1, 2, 3, 4, 5, 6}, TidMod=256, WithIter=True, FixWrap=True, FixRootNext=True)
+TRACE_CONSTS = dict(MaxKey=100000, Vals={1, 2, 3, 4, 5, 6, 7}, TidMod=256, WithIter=True, FixWrap=True, FixRootNext=True)
 
 
 def _replays(profiles, shapemax=15):
@@ -11,7 +11,7 @@ def _replays(profiles, shapemax=15):
 
 def _remap_values(segs, rot):
     """The model uses value ids 1,2; rotate them through the harness's value kinds (empty, embedded NUL, C string)."""
-    table = [{1: 1, 2: 2}, {1: 3, 2: 1}, {1: 4, 2: 6}, {1: 2, 2: 3}][rot % 4]
+    table = [{1: 1, 2: 2}, {1: 3, 2: 1}, {1: 4, 2: 6}, {1: 2, 2: 3}, {1: 1, 2: 7}][rot % 5]       # 7 is a proper prefix of 1
     out = []
     for seg in segs:
         out.append([dict(o, b=table.get(o["b"], o["b"])) if o["op"] == "put" else o for o in seg])
@@ -49,13 +49,16 @@ def models(tier):
                      workers=4, trace_consts=TRACE_CONSTS, replays=_replays([3]), prelude=_prelude)]
     k1 = 8 if tier == "quick" else 10
     ms.append(dict(tag="shape-K%d" % k1, consts=dict(base, MaxKey=k1, Vals={1}, WithIter=False), invariants=inv, properties=prop,
-                   workers=4, trace_consts=TRACE_CONSTS, replays=_replays([0, 1, 2, 3]), heap="8g"))
+                   workers=4, trace_consts=TRACE_CONSTS, replays=_replays([0, 1, 2, 3, 4]), heap="8g"))
     ms.append(dict(tag="vals-K5", consts=dict(base, MaxKey=5, Vals={1, 2}, WithIter=False), invariants=inv, properties=prop,
                    workers=2, trace_consts=TRACE_CONSTS, replays=_replays([1, 0, 3, 2]),
                    prelude=lambda segs: _remap_values(segs, 2)))       # values 4/6: same size, equal up to an embedded NUL
     ms.append(dict(tag="empty-K4", consts=dict(base, MaxKey=4, Vals={1, 2}, WithIter=False), invariants=inv, properties=prop,
                    workers=2, trace_consts=TRACE_CONSTS, replays=_replays([0, 1, 2, 3]),
                    prelude=lambda segs: _remap_values(segs, 1)))
+    ms.append(dict(tag="prefix-K4", consts=dict(base, MaxKey=4, Vals={1, 2}, WithIter=False), invariants=inv, properties=prop,
+                   workers=2, trace_consts=TRACE_CONSTS, replays=_replays([4, 1] if tier == "quick" else [4, 0, 1, 2]),
+                   prelude=lambda segs: _remap_values(segs, 4)))        # a value and a proper prefix of it; equal keys spelled differently
     ms.append(dict(tag="iter-K3", consts=dict(base, MaxKey=3, Vals={1}, WithIter=True), invariants=inv, properties=prop,
                    workers=4, trace_consts=TRACE_CONSTS, replays=_replays([0, 2] if tier == "quick" else [0, 1, 2, 3]),
                    prelude=_prelude))
@@ -103,7 +106,7 @@ def _rand(rng, steps, nkeys, walks=True):
         r = rng.random()
         k = rng.randint(1, nkeys)
         if r < 0.38:
-            seg.append(dict(op="put", a=k, b=rng.choice([1, 2, 2, 3, 4, 5, 6, 4, 6]))); present.add(k)
+            seg.append(dict(op="put", a=k, b=rng.choice([1, 2, 2, 3, 4, 5, 6, 4, 6, 7, 1, 7]))); present.add(k)
         elif r < 0.60:
             if present and rng.random() < 0.7:
                 k = rng.choice(tuple(present)) if len(present) < 50 or rng.random() < 0.3 else k
@@ -135,7 +138,7 @@ def randoms(tier, rng):
     plan = [(2, 6000, 40), (1, 8000, 2000)] if tier == "quick" else [(1, 1500, 30), (1, 2000, 120)] if tier == "cross" else [(6, 8000, 40), (3, 20000, 2000), (2, 30000, 10000)]
     for n, (nseg, steps, nkeys) in enumerate(plan):
         out.append(dict(tag="k%d" % nkeys, segs=[_rand(rng, steps, nkeys) for _ in range(nseg)], trace_consts=TRACE_CONSTS,
-                        replays=_replays([rng.randint(0, 3), (n + 1) % 4] if tier == "thorough" else [(n * 2 + rng.randint(0, 1)) % 4])))
+                        replays=_replays([rng.randint(0, 4), (n + 1) % 5] if tier == "thorough" else [(n * 2 + rng.randint(0, 1)) % 5])))
     # walk bursts: hundreds of traversal starts on small trees (epoch wrap-around, C03)
     burst = []
     for _ in range(2 if tier == "quick" else 1 if tier == "cross" else 6):
